@@ -414,6 +414,19 @@ def gen_long(rng, combo):
     if cfg["N"] != "inf":
         cfg["N"] = rng.choice((n, n + 1, 2 * n, 10 * n))
     cfg.pop("N_warm", None)
+    if cfg["N"] != "inf" and rng.random() < 0.15:
+        # a small null mean (t = 1/64) in a large population: a run of u's overflows the product, a 0 follows, more u's
+        # bring the total to N t EXACTLY, then one more positive draw takes it beyond
+        T = rng.randint(200, 260)
+        cfg["u"], cfg["t"], cfg["N"] = 1.0, 2.0 ** -6, 64 * T
+        for k_ in ("u_built", "int_dtype", "float_dtype", "kw_built"):
+            cfg.pop(k_, None)
+        if "eta" in cfg["kw"]:
+            cfg["kw"]["eta"] = rng.choice((0.5, 0.25, 0.75))
+        if "lam" in cfg["kw"]:
+            cfg["kw"]["lam"] = rng.choice((0.5, 1.0))
+        return cfg, {"pattern": "overflow_zero_exact_total_then_more", "n": T + 2, "a": rng.randint(175, T - 5),
+                     "last": rng.choice((1.0, 0.5)), "seed": 0}
     return cfg, {"pattern": rng.choice(LONG_PATTERNS), "n": n, "seed": rng.randrange(10 ** 9)}
 
 
@@ -421,6 +434,9 @@ def expand_long(desc, cfg):
     import random as _r
     r = _r.Random(desc["seed"])
     u, t, n, pat = cfg["u"], cfg["t"], desc["n"], desc["pattern"]
+    if pat == "overflow_zero_exact_total_then_more":
+        T = n - 2
+        return [u] * desc["a"] + [0.0] + [u] * (T - desc["a"]) + [desc["last"]]
     if pat == "all_t":
         return [t] * n
     if pat == "all_half_u":
